@@ -4,6 +4,7 @@ import json
 import re
 
 from .. import common as C
+from . import c13m
 from . import tlcommon as T
 from . import tlschema
 
@@ -112,6 +113,7 @@ def run(ctx):
             samples.append({"definition": ids[crc][1][:160], "go_type": names.get(tid), "bytes": T.short(ic, 120)})
     if not samples:
         samples.append({"note": "no sample selected"})
+    mcov = c13m.stage(ctx)   # end-to-end half against the in-process server
     cov = C.proof_coverage(
         pr, "make -f Makefile.coq theories/Props/C13.vo theories/Inst/C13i.vo (coqc 8.16.1) in /verif/coq",
         T.TRUSTED_TL + ["schema-embed translator lib/props/tlschema.py (verbatim copy of the .tl files into coq/gen/SchemaText.v; parsed inside Coq)"],
@@ -124,6 +126,7 @@ def run(ctx):
          "schema_definitions_exercised_by_values": len(defs_seen), "schema_definitions_total": len(ids),
          "generated_client_methods": "covered by the end-to-end run against the in-process server (see notes)",
          "projection": "descriptor agreement (boolean, with reasons); bytes"})
+    cov.update(mcov)
     return C.finish(ctx, "proof", cov, [
         "canonical-line rule for CRC-32 as in Telethon (drop #id and ';', bytes->string, '<'->' ', '>' dropped, braces dropped, flags.N?true parameters dropped, %T -> bare constructor name)",
         "method half of the property (343 generated client methods end to end) is a correspondence, not a theorem about Go source"])
